@@ -16,15 +16,20 @@
 (*    which slices are taken - as functions "open" and "next" on (input,     *)
 (*    position).  A slice expression whose bounds the code does not guard    *)
 (*    would yield "panic"; an allocation of 2^30 bytes or more driven by a   *)
-(*    length field yields "oom" when Impl = "asis" (pion allocates what the  *)
-(*    IVF frame header says) and an error when Impl = "intended".            *)
+(*    length field yields "oom" when Impl = "asis" (the pinned pion allocates *)
+(*    what the IVF frame header says) and an error when Impl = "intended".   *)
+(*    Impl = "current" is pion as it is now: f2d7ab1 reads IVF frames above  *)
+(*    1 MiB through a LimitReader (no allocation from the size field) and    *)
+(*    7b855c6 filters a trailing SEI unit, c5e853e makes the rtpdump reader  *)
+(*    reject record lengths below 8; "asis" keeps the pinned code as         *)
+(*    the record of the counterexample TLC finds.                            *)
 (* 4. The contract automaton: open, then next until a non-value outcome.     *)
 (*    TLC checks NoPanic, ProgressOrStop, termination within n calls and     *)
 (*    that positions stay inside the input, for every vector.                *)
 (* The terminal states (vector + predicted run) are what is replayed.        *)
 EXTENDS ReadersOps, Randomization
 
-CONSTANTS Impl,     \* "asis" | "intended"
+CONSTANTS Impl,     \* "asis" | "current" | "intended"
           Space     \* "quick" | "thorough" | "ivf" (as-is refutation)
 
 VARIABLES vec, input, pos, hs, run, phase
@@ -237,7 +242,10 @@ IvfNext(b, p) ==
   ELSE IF rem < 12 THEN Res("error", Len(b))
   ELSE LET sz == N32LE(b, p + 1)
            body == rem - 12 IN
-       IF Impl = "asis" /\ sz.gib THEN Res("oom", p + 12)          \* make([]byte, header.FrameSize)
+       \* pinned: make([]byte, header.FrameSize).  Now: sizes up to 1 MiB are allocated and filled with
+       \* io.ReadFull, larger ones read with io.ReadAll(io.LimitReader(..)); on inputs this small both end the
+       \* same way (nothing left: io.EOF, too little: errIncompleteFrameData)
+       IF Impl = "asis" /\ sz.gib THEN Res("oom", p + 12)
        ELSE IF ~sz.big /\ sz.v <= body THEN Res("value", p + 12 + sz.v)
        ELSE IF body = 0 THEN Res("eof", Len(b))                     \* io.ReadFull read nothing: io.EOF is passed on
        ELSE Res("error", Len(b))
@@ -267,7 +275,7 @@ RtpNext(b, p) ==
   ELSE LET L == U16BE(b, p + 1)
            need == IF L >= 8 THEN L - 8 ELSE L - 8 + 65536          \* uint16 arithmetic in Reader.Next
            body == rem - 8 IN
-       IF L = 0 THEN Res("error", p + 8)
+       IF (IF Impl = "asis" THEN L = 0 ELSE L < 8) THEN Res("error", p + 8)     \* c5e853e: Length < 8 is rejected (pinned: only 0)
        ELSE IF need <= body THEN Res("value", p + 8 + need)
        ELSE IF body = 0 THEN Res("eof", Len(b))
        ELSE Res("error", Len(b))
@@ -352,7 +360,7 @@ Push(s, c) == [s EXCEPT !.nl = @ + 1, !.first = IF s.nl = 0 THEN c ELSE @]
 RECURSIVE NalScan(_, _, _, _)
 NalScan(fmt, b, p, s) ==       \* the for-loop of NextNAL from position p; returns [k, pos, hs]
   IF p = Len(b)
-  THEN IF s.nl = 0 \/ IsSei(fmt, s.first)                 \* a trailing SEI unit is filtered like any other (pion 7b855c6)
+  THEN IF s.nl = 0 \/ (Impl # "asis" /\ IsSei(fmt, s.first))   \* since 7b855c6 a trailing SEI unit is filtered too
        THEN [k |-> "eof", pos |-> p, hs |-> [s EXCEPT !.nl = 0]]
        ELSE [k |-> "value", pos |-> p, hs |-> [s EXCEPT !.nl = 0]]
   ELSE LET c == b[p + 1] IN
